@@ -286,6 +286,17 @@ def run_io(prog, rep):
                 probs.append('does not write the Janus buffer with its own type')
             if lit_of(a[2]) != '{1}' or lit_of(a[3]) != '{%s}' % rowp:
                 probs.append('selection is count=%s offset=%s, expected {1} / {%s}' % (lit_of(a[2]), lit_of(a[3]), rowp))
+        # every cell the caller gave is transferred: the Janus is built from the parameter itself (writeCells) / from one cell per value (writeRow)
+        jv = [v for v in sem.local_vars(f).values() if 'Janus' in (v.get('type') or '')]
+        if not jv or jv[0].c[0] is None:
+            probs.append('no Janus is built')
+        else:
+            jargs = [term(unwrap(x)) for x in jv[0].c[0].walk() if x.k == 'ref' and x.decl.get('kind') in ('param', 'local')]
+            if nm == 'writeCells':
+                pv_ = ('v', f.params[1]['lid'], f.params[1]['name'])
+                if pv_ not in jargs:
+                    lst = [t for t in jargs if t[0] == 'v' and t[2] != 'dt']
+                    probs.append('the cells handed to HDF5 are %s, not the list the caller gave: a filtered or rewritten list can drop cells (index-addressed cells all carry the empty name)' % (lst[0][2] if lst else '?'))
         rule.check(not probs, '%s::%s' % (DF, nm), rep.where(f), f.label(), 'write(j.data, j.dtype, {1}, {row})', '; '.join(probs))
     for nm in ('readCells', 'readRow'):
         f = prog.fn('%s::%s' % (DF, nm))
